@@ -63,6 +63,8 @@ class Mod:
         self.struct_normalised = StructNorm(self.tree).run()
         self.evolved = Evolve(name, self.tree, path=self.path).run()
         self.inlined = Inliner(name, self.tree, path=self.path).run()
+        from inline import split_tuple_assigns
+        self.tuple_split = split_tuple_assigns(self.tree)
         set_parents(self.tree)
         self.classes = {}
         self.funcs = {}
